@@ -185,13 +185,12 @@ Theorem handler_sound {S} (cur : S) (conf other : Z) (effs : list heff) (w : hwo
   handler_ok npw effs = true -> exit_code w = None ->
   written (hrun cur conf other npw effs w) = written w ++ [cur]
   /\ exit_code (hrun cur conf other npw effs w) = Some conf
-  /\ pool_open (hrun cur conf other npw effs w) = false
   /\ dirty (hrun cur conf other npw effs w) = dirty w.
 Proof.
   unfold handler_ok. intros H E. apply andb_true_iff in H. destruct H as (-> & H).
-  apply hlist_eqb_eq in H. rewrite hrun_filter, H.
-  destruct w as [po wr ec di]. cbn [exit_code] in E. subst ec.
-  unfold hrun. cbn. repeat split.
+  rewrite hrun_filter. destruct w as [po wr ec di]. cbn [exit_code] in E. subst ec.
+  apply orb_true_iff in H. destruct H as [H|H]; [apply orb_true_iff in H; destruct H as [H|H]|];
+    apply hlist_eqb_eq in H; rewrite H; unfold hrun; cbn; repeat split.
 Qed.
 
 Lemma handler_today_ok : handler_ok true handler_today = true.
